@@ -52,8 +52,9 @@ def native_states(run, n, gen_key, computer, gap, states):
     return evals, None
 
 
-def native_expected_greedy(run, n, gen_key, steps, reps, procs):
-    """Bounded: expected-greedy vs the exhaustive optimum on the same sampled games (real Pool)."""
+def native_expected_greedy(run, n, gen_key, steps, reps, procs, scale=1.0):
+    """Bounded: expected-greedy vs the exhaustive optimum on the same sampled games (real Pool); `scale` books the
+    game values in a small unit (absolute tolerances in the search then show)."""
     import numpy as np
     from pyvc.mode import native_pkg
     P = native_pkg()
@@ -63,6 +64,8 @@ def native_expected_greedy(run, n, gen_key, steps, reps, procs):
     for which in ("greedy", "best"):
         inst = model.ModelInstance(number_of_players=n, game_class="superadditive_cached", game_generator=gen_key, seed=seed)
         env = inst.get_env()
+        if scale != 1.0:
+            env.generator = _Scaled(env.generator, scale)
         if which == "greedy":
             rows[which] = greedy.get_greedy_rewards(env, steps, reps, inst.gap_function_callable, processes=procs)
         else:
@@ -70,11 +73,23 @@ def native_expected_greedy(run, n, gen_key, steps, reps, procs):
     g, seq = rows["greedy"]
     b, sets = rows["best"]
     gm, bm = g.mean(axis=1), b.mean(axis=1)
-    tol = 1e-9 * max(1.0, float(np.abs(g).max()))
+    tol = 1e-9 * max(scale, float(np.abs(g).max()))
     ok = len(set(seq)) == len(seq) == steps and all(gm[t + 1] <= gm[t] + tol for t in range(steps)) \
         and all(gm[t] >= bm[t] - tol for t in range(steps + 1)) and abs(gm[0] - bm[0]) <= tol and (steps < 1 or abs(gm[1] - bm[1]) <= tol)
     return None if ok else {"generator": gen_key, "n": n, "greedy_mean": gm.tolist(), "best_mean": bm.tolist(), "sequence": list(map(int, seq)),
                             "processes": procs}
+
+
+class _Scaled:
+    """A picklable generator wrapper: the hidden games of `gen`, values multiplied by `scale`."""
+
+    def __init__(self, gen, scale):
+        self.gen, self.scale = gen, scale
+
+    def __call__(self, *a):
+        g = self.gen(*a)
+        g.set_values(g.get_values() * self.scale)
+        return g
 
 
 def main(run):
@@ -97,6 +112,11 @@ def main(run):
     for chosen in states4:
         for s, gap in (("greedy", "l1_norm"), ("greedy_worst", "exploitability"), ("largest", "exploitability"), ("random", "linf_norm")):
             run.prove(f"{s}[n=4,chosen={sorted(chosen)},{gap}]", E.sc_solver, {"n": 4, "solver": s, "chosen": sorted(chosen), "gap": gap}, pkg=pkg)
+    # step budgets: the last allowed move must still obey the rule (every trial step reports done there)
+    for chosen, budget in (([], 1), ([3], 2), ([7, 11, 13, 14, 3, 12], 7), ([5, 9], 3)):
+        for s, gap in (("greedy", "l1_norm"), ("greedy_worst", "exploitability"), ("largest", "exploitability"), ("random", "linf_norm")):
+            run.prove(f"{s}[n=4,chosen={sorted(chosen)},{gap},budget={budget}]", E.sc_solver,
+                      {"n": 4, "solver": s, "chosen": sorted(chosen), "gap": gap, "budget": budget}, pkg=pkg)
     run.prove("expected_greedy[n=3,steps=3,reps=2]", E.sc_expected_greedy, {"n": 3, "max_steps": 3, "repetitions": 2}, pkg=pkg)
     run.prove("expected_greedy[n=4,steps=1,reps=1]", E.sc_expected_greedy, {"n": 4, "max_steps": 1, "repetitions": 1, "gap": "l1_norm"}, pkg=pkg)
     if not quick:
@@ -121,11 +141,11 @@ def main(run):
                                       detail={"layer": "bounded"})
     eg_rows = []
     for n, steps, reps in ((3, 3, 3), (4, 2, 2)) if quick else ((3, 3, 4), (4, 2, 3), (4, 3, 2)):
-        for procs in (1, 2, 4):
-            w = native_expected_greedy(run, n, "noisy_factory", steps, reps, procs)
+        for procs, scale in ((1, 1.0), (2, 1.0), (4, 1.0), (1, 1e-7), (2, 1e-7)):
+            w = native_expected_greedy(run, n, "noisy_factory", steps, reps, procs, scale)
             run.native_evals += 1
             run.native_distinct.add(("eg", n, steps, reps, procs))
-            eg_rows.append({"n": n, "steps": steps, "reps": reps, "processes": procs, "failure": w})
+            eg_rows.append({"n": n, "steps": steps, "reps": reps, "processes": procs, "scale": scale, "failure": w})
             if w:
                 run._report_violation(f"native.expected_greedy[n={n},p={procs}]/vs_exhaustive", E.sc_expected_greedy,
                                       {"n": n, "max_steps": steps, "repetitions": reps}, w, True, detail={"layer": "bounded"})
